@@ -182,22 +182,25 @@ def build_expression(
                 # Only exceptions is 'abs' which is 'Abs'
                 funcname = "Abs"
 
-            return getattr(sp, funcname)(*[expr2symbols(c) for c in tree.children[1:]])
+            return getattr(sp, funcname)(
+                *[relational_to_piecewise(expr2symbols(c)) for c in tree.children[1:]]
+            )
 
         if tree.data == "logicalfunc":
             if tree.children[0] == "Conditional":
+                # a relation used as the value of a branch is the number 1 or 0, as for the operands of + - * /
                 return sympytools.Conditional(
                     cond=expr2symbols(tree.children[1]),
-                    true_value=expr2symbols(tree.children[2]),
-                    false_value=expr2symbols(tree.children[3]),
+                    true_value=relational_to_piecewise(expr2symbols(tree.children[2])),
+                    false_value=relational_to_piecewise(expr2symbols(tree.children[3])),
                 )
 
             elif tree.children[0] == "ContinuousConditional":
                 rel_op, arg1, arg2 = tree.children[1].children
                 cond = sp.sympify(rel_op.value)(expr2symbols(arg1), expr2symbols(arg2))
 
-                true_value = expr2symbols(tree.children[2])
-                false_value = expr2symbols(tree.children[3])
+                true_value = relational_to_piecewise(expr2symbols(tree.children[2]))
+                false_value = relational_to_piecewise(expr2symbols(tree.children[3]))
                 sigma = expr2symbols(tree.children[4])
 
                 return sympytools.ContinuousConditional(
@@ -214,4 +217,8 @@ def build_expression(
         raise InvalidTreeError(tree=tree)
 
     # Recursively build the expression starting from the root
-    return expr2symbols(root)
+    # (a right-hand side that is a relation sympy has already decided, e.g. Le(x, x), is the number 1 or 0)
+    expr = expr2symbols(root)
+    if expr is sp.true or expr is sp.false:
+        return relational_to_piecewise(expr)
+    return expr
